@@ -155,7 +155,14 @@ def _hand_down(ctx):
         if k not in kwx:
             ctx.undecided('DEFUSE', f"construct_tracts: Tract({k}=...)", 'keyword not found')
             continue
-        attrs = flow.prov_attrs(flow.provenance(ct.node, kwx[k]))
+        pv_k = flow.provenance(ct.node, kwx[k])
+        attrs = flow.prov_attrs(pv_k)
+        if k == 'orig_index' and want not in attrs and any(p_[0] in ('iter', 'unpack') for p_ in pv_k):
+            ctx.violation('DEFUSE', f"construct_tracts: Tract({k}=...) derives from {want}",
+                          f"Tract receives orig_index={norm(kwx[k])}, a loop position, not the running counter: the tracts that one "
+                          f"multi-section expands into share an index and later tracts are numbered too low",
+                          key=f"DEFUSE|construct_tracts|{k}", where=common.loc(ct, calls[0]))
+            continue
         ctx.tri(want in attrs, bool(attrs & wrong_src[k]) and want not in attrs, 'DEFUSE',
                 f"construct_tracts: Tract({k}=...) derives from {want}",
                 detail_bad=f"Tract receives {k}={norm(kwx[k])}, derived from {sorted(attrs)} (not {want}): "
